@@ -14,6 +14,24 @@ checks = {
    text="Tens of thousands of (stored, received) pairs differing by one minimal hostile edit, over all five entry points, colours on/off and every update-disabled mode; oracle is the recorded Error/Log signals plus a backdated-mtime digest. Exploration; one open finding (escape conflation) is recognised by a witness-specific predicate.", note=TB_A),
  "C03": dict(engine="A", technique="runtime monitor: lockstep slot model on outcomes + independent reader diff after every mutating call", design="§5 C03",
    text="Generated multi-process histories (confusable names, >9 ordinals, failing calls midway, re-executions, interleavings) are executed against the real code; every call's outcome is compared with a 15-line sequential model and the file with an independent reader. Exploration.", note=TB_A),
+ "C04": dict(engine="A", technique="runtime monitor: update-run workload, lockstep slot model + independent reader + backdated-mtime digest (no-write oracle)", design="§5 C04",
+   text="Recorded directories are re-run with updating enabled in each of the four ways while a random subset of values changes (shorter/longer/empty/terminator-like/1 MB); after every call the monitor compares outcome, file content via the independent reader and per-path mtime/inode, then a read-only run must pass without writing. Exploration.", note=TB_A),
+ "C12": dict(engine="A", technique="runtime monitor: reflection fingerprint invariant at the call boundary + metamorphic shared-vs-fresh Config comparison over all sequences <=4", design="§5 C12",
+   text="All 780 sequences of the five entry points x 48 option sets are executed twice (one shared Config vs a fresh identical Config per call); a fingerprint hook asserts the Config, an unrelated Config and WithConfig() are unchanged after every call and that paths, bytes and outcomes agree. The finite sequence space is swept completely (stated in evidence); concurrency is covered by C06's -race stress.", note=TB_A),
+ "C13": dict(engine="A", technique="runtime monitor: independent report parser + opcode tiling/replay checker over the real prettyDiff; exhaustive 3-letter/len<=5 sweep", design="§5 C13",
+   text="Every ordered pair of line sequences over {a,b,c} up to length 5 (132 496 pairs) plus tens of thousands of seeded hostile pairs go through the real diff code; an independent parser decides every clause (empty iff identical, counts, -/+ lines, remainders, opcode tiling, replay, hunk coverage). Exhaustive only for the stated finite part.", note=TB_A),
+ "C14": dict(engine="A", technique="runtime monitor: metamorphic presentations (whitespace/member order/input form) + encoding/json tree oracle on stored text", design="§5 C14",
+   text="Generated documents are stored through one presentation and replayed/re-recorded through another; stored text is decoded with encoding/json and compared (ordered when SortKeys is off) with the generator's tree; invalid documents must fail and write nothing in four modes. Exploration.", note=TB_A),
+ "C15": dict(engine="A", technique="runtime monitor: tree-model oracle for matcher output (JSON via encoding/json, YAML via goccy ordered decode) + caller-buffer canary with guard regions", design="§5 C15",
+   text="Matchers are applied to generated documents directly and through the snaps entry points; output must decode to set(input, path, placeholder) with order kept; sequences must equal the left-to-right model; a []byte input carved from a larger buffer must be byte-identical afterwards. Exploration.", note=TB_A),
+ "C16": dict(engine="A", technique="runtime monitor: two-run metamorphic triples (masked-only change passes and writes nothing; unmasked change gives exactly one Error)", design="§5 C16",
+   text="Triples D1/D2/D3 are generated from a tree and a mask set (Any/Type/Custom with placeholders incl. non-ASCII); oracle is the T-recorder plus the digest. Exploration.", note=TB_A),
+ "C17": dict(engine="A", technique="runtime monitor: exactly-one-Error naming every failing matcher, no-write digest, follow-up ordinal check; ErrOnMissingPath(false) metamorphic equality", design="§5 C17",
+   text="Documents with mixes of satisfiable and failing matchers in every order, four modes, three slot states, three entry points; oracle: error text names match.<Name>(\"<path>\") for each failing one, digest unchanged, next call lands in ordinal 2. Exploration.", note=TB_A),
+ "C18": dict(engine="A", technique="runtime monitor: independent reader compares stored body with escape(input) byte for byte; 50x repeat-marshal equality for Go values; invalid-input no-write oracle", design="§5 C18",
+   text="Hostile YAML texts stored verbatim next to a neighbour entry and replayed in fresh simulated processes; Go values marshalled 50 times across restarts must give one text; invalid YAML must fail and write nothing. Exploration.", note=TB_A),
+ "C19": dict(engine="A", technique="runtime monitor: lockstep standalone histories - file k holds exactly the formatted bytes, nothing else moves (digest), json.Valid for JSON", design="§5 C19",
+   text="Standalone histories (1-12 calls, re-executions, names with %, unicode, arbitrary bytes incl. CR) over record/update/replay processes; per call the monitor checks outcome, that file k holds exactly the formatted bytes and that no other path was touched. Exploration.", note=TB_A),
 }
 
 PENDING = {}
